@@ -28,22 +28,26 @@ Idx(s) == CASE s = "d0" -> 1 [] s = "d1" -> 2 [] s = "he1" -> 3 [] s = "c5" -> 4
 Rate(fam, key) == CASE fam = "exc" -> 3 [] fam = "rec" -> 5
                     [] fam = "tcx" -> 7 + 2 * Idx(key)                 \* per donor
                     [] fam = "plt" -> 11 [] fam = "prb" -> 13 [] fam = "prc" -> 17
-                    [] fam = "gaunt" -> 2
+                    [] fam = "gaunt" -> 2 + key                        \* free-free Gaunt factor per ion charge
                     [] fam = "bcx" -> 19 + 4 * key                     \* per beam metastable (1, 2, 3)
                     [] fam = "bmp" -> 1 + Idx(key[1]) + 3 * (key[2] - 2)   \* beam population coefficient per <<target species, metastable>>
                     [] fam = "bes" -> 23 + 2 * Idx(key)                \* beam emission coefficient per target species
 
 \* the rate table, for the mock provider of the conformance harness
 ASSUME PrintT(ToJson([rates |-> [exc |-> Rate("exc", "d0"), rec |-> Rate("rec", "d1"), plt |-> Rate("plt", "c5"), prb |-> Rate("prb", "c6"), prc |-> Rate("prc", "c6"),
-                                 gaunt |-> Rate("gaunt", "d1"), tcx |-> [s \in Names |-> Rate("tcx", s)],
+                                 gaunt |-> [z \in 1..6 |-> Rate("gaunt", z)], tcx |-> [s \in Names |-> Rate("tcx", s)],
                                  bmp |-> [s \in Names |-> <<Rate("bmp", <<s, 2>>), Rate("bmp", <<s, 3>>)>>],
                                  bes |-> [s \in Names |-> Rate("bes", s)], bcx |-> <<Rate("bcx", 1), Rate("bcx", 2), Rate("bcx", 3)>>]]))
 
 VARIABLES model, dens, temp, ne, te, nb,
           flow,     \* beam models: do the plasma species move (per-species bulk velocities Vel) or rest
+          mag,      \* every density (electrons, species, beam) is multiplied by 10^mag: the totals are homogeneous of degree 2
           prior     \* what the model object was bound to and evaluated with before the configuration under test:
                     \* "none" (first use), "provider" (another atomic-data provider), "plasma" (another plasma)
-vars == <<model, dens, temp, ne, te, nb, prior, flow>>
+vars == <<model, dens, temp, ne, te, nb, prior, flow, mag>>
+MagExps == {0, -13, 9}          \* 1e10 m^-3 per unit: 2e-3 m^-3 ... 2e19 m^-3
+\* species temperatures pairwise distinct and distinct from T_e (3), so a coefficient evaluated at another species' temperature shows
+TempOf(s) == 3 + Idx(s)
 Priors == {"none", "provider", "plasma"}
 Absent == -9
 Present == {s \in Names : dens[s] # Absent}
@@ -51,11 +55,12 @@ N(s) == dens[s]
 
 Init == /\ model \in Models
         /\ dens \in [Names -> DensVals \cup {Absent}]
-        /\ temp \in [Names -> {3}] \cup {[s \in Names |-> IF s \in {"d0", "d1", "c6"} THEN 0 ELSE 3]}
+        /\ temp \in {[s \in Names |-> TempOf(s)], [s \in Names |-> IF s \in {"d0", "d1", "c6"} THEN 0 ELSE TempOf(s)]}
         /\ ne \in NeVals /\ te \in TeVals
         /\ nb \in (IF model \in {"bcx", "bes"} THEN {0, 4} ELSE {0})
         /\ flow \in (IF model \in {"bcx", "bes"} THEN BOOLEAN ELSE {FALSE})
         /\ prior \in (IF ne = 2 /\ te = 3 THEN Priors ELSE {"none"})      \* re-binding explored at the nominal electron state
+        /\ mag \in (IF ne = 2 /\ te = 3 /\ prior = "none" /\ ~flow THEN MagExps ELSE {0})
         /\ (model \in {"bcx", "bes"} => /\ ne = 2 /\ te = 3 /\ \A s \in Names : dens[s] >= 0 \/ dens[s] = Absent
                                         /\ \E s \in Names : dens[s] > 0 /\ Charge(s) > 0)
 
@@ -86,7 +91,7 @@ Total ==
                              + (IF Pos(N("c6")) THEN ne * N("c6") * Rate("prb", "c6") ELSE 0)
                              + (IF Pos(N("c6")) /\ Pos(SumS([s \in Names |-> N(s)], Hyd)) THEN SumS([s \in Names |-> N(s)], Hyd) * N("c6") * Rate("prc", "c6") ELSE 0)
                           ELSE 0
-    [] model = "brems" -> IF Pos(ne) /\ Pos(te) THEN ne * SumS([s \in Names |-> IF Pos(N(s)) THEN N(s) * Charge(s) * Charge(s) * Rate("gaunt", s) ELSE 0], Ions) ELSE 0
+    [] model = "brems" -> IF Pos(ne) /\ Pos(te) THEN ne * SumS([s \in Names |-> IF Pos(N(s)) THEN N(s) * Charge(s) * Charge(s) * Rate("gaunt", Charge(s)) ELSE 0], Ions) ELSE 0
     [] OTHER -> 0
 \* a negative donor / hydrogen density is outside what the three clauses of the statement agree on
 Unspecified == \/ (model = "tcx" /\ \E s \in Donors : N(s) < 0)
@@ -120,7 +125,10 @@ BeamVanishes == (model \in {"bcx", "bes"} /\ nb = 0) => BeamTotal[1] = 0
 
 \* Vel is given in the beam frame; when the species flow the beam frame is rotated against the plasma frame (the
 \* interaction energy is frame independent, so EFac is what every coefficient must be evaluated at either way)
-EmitCase == PrintT(ToJson([model |-> model, prior |-> prior, flow |-> flow, frame |-> IF flow THEN "rotated" ELSE "aligned", vel |-> [s \in Names |-> IF flow THEN Vel(s) ELSE <<0, 0, 0>>], efac |-> [s \in Names |-> EFac(s)], dens |-> dens, temp |-> temp, ne |-> ne, te |-> te, nb |-> nb, raises |-> Raises,
+\* homogeneity: every rule above is a sum of products of exactly two densities (n_e n_i, n_rec n_d, n_b n_i; the beam CX
+\* mean q is a ratio of sums of the same degree), so with all densities x 10^mag the total is Total x 10^(2 mag)
+Degree == 2
+EmitCase == PrintT(ToJson([model |-> model, mag |-> mag, total_exp |-> Degree * mag, prior |-> prior, flow |-> flow, frame |-> IF flow THEN "rotated" ELSE "aligned", vel |-> [s \in Names |-> IF flow THEN Vel(s) ELSE <<0, 0, 0>>], efac |-> [s \in Names |-> EFac(s)], dens |-> dens, temp |-> temp, ne |-> ne, te |-> te, nb |-> nb, raises |-> Raises,
                            total |-> Total, unspecified |-> Unspecified, beam_total |-> BeamTotal,
                            needs |-> Needs, donors |-> Donors, hyd |-> Hyd,
                            species |-> Sp, zeff |-> <<SumZ2N, SumZN>>, nion |-> SumN]))
